@@ -267,6 +267,16 @@ func (c *Ctx) Finish(verifDir string, known *KnownFile, start time.Time, seed in
 	for k, v := range c.Extra {
 		cov[k] = v
 	}
+	// the claim as registered in MANIFEST.json (it lists the rules added after the first
+	// version of the explanation above was written)
+	if b, err := os.ReadFile(filepath.Join(verifDir, "tools", "claims.json")); err == nil {
+		var claims map[string]map[string]string
+		if json.Unmarshal(b, &claims) == nil {
+			if cl, ok := claims[c.Prop]; ok && cl["text"] != "" {
+				cov["claim_as_registered"] = cl["text"]
+			}
+		}
+	}
 	ev := map[string]any{
 		"property_id": c.Prop,
 		"tier":        c.Tier,
